@@ -11,6 +11,7 @@ import Driver.Annotations
 import Driver.Names
 import Driver.Version
 import Driver.Validate
+import Driver.Cache
 open Lean
 
 def dispatch (j : Json) : Except String Json := do
@@ -22,6 +23,7 @@ def dispatch (j : Json) : Except String Json := do
   | "names" => Driver.Names.handle j
   | "version" => Driver.Version.handle j
   | "validate" => Driver.Validate.handle j
+  | "cache" => Driver.Cache.handle j
   | _ => throw s!"unknown stream {stream}"
 
 partial def loop (hin hout : IO.FS.Stream) : IO Unit := do
